@@ -40,6 +40,15 @@ var skelCalls = map[string]bool{
 // WALHeaderSize) are printed; guards that mention locals stay "if _".
 var skelVerifyMode bool
 
+// skelSnapMode is set while snapshotReader is printed: the calls of the read phase by name, method calls
+// on locals by METHOD name only (".pageMap", ".EncodeHeader", ".CloseWithError" = the failure exit), and the
+// body of the streaming goroutine ("go { ... }").
+var skelSnapMode bool
+
+var skelSnapCalls = map[string]bool{"os.Open": true, "NewWALReader": true, "ltx.NewEncoder": true, "db.writeLTXFromDB": true,
+	"snapshotHeaderWALRange": true}
+var skelSnapMethods = map[string]bool{"pageMap": true, "EncodeHeader": true, "CloseWithError": true}
+
 var skelVerifyCalls = map[string]bool{"db.lastPageMatch": true, "db.detectFullCheckpoint": true, "os.Stat": true, "os.Open": true}
 
 // assignments whose target matters
@@ -200,7 +209,9 @@ func skelExprTokens(e ast.Expr, out *[]string) {
 			return false
 		case *ast.CallExpr:
 			name := exprText(c.Fun)
-			if skelCalls[name] || (skelVerifyMode && skelVerifyCalls[name]) {
+			if sel, ok := c.Fun.(*ast.SelectorExpr); ok && skelSnapMode && skelSnapMethods[sel.Sel.Name] {
+				*out = append(*out, "call ."+sel.Sel.Name)
+			} else if skelCalls[name] || (skelVerifyMode && skelVerifyCalls[name]) || (skelSnapMode && skelSnapCalls[name]) {
 				*out = append(*out, "call "+name)
 			} else if sel, ok := c.Fun.(*ast.SelectorExpr); ok && sel.Sel.Name == "ExecContext" && len(c.Args) >= 2 {
 				if lit, ok := c.Args[1].(*ast.BasicLit); ok && lit.Kind == token.STRING {
@@ -324,6 +335,14 @@ func skelStmt(st ast.Stmt, out *[]string) {
 		}
 	case *ast.BlockStmt:
 		skelStmts(s.List, out)
+	case *ast.GoStmt:
+		if fl, ok := s.Call.Fun.(*ast.FuncLit); ok && skelSnapMode {
+			var body []string
+			skelStmts(fl.Body.List, &body)
+			*out = append(*out, "go {")
+			*out = append(*out, body...)
+			*out = append(*out, "}")
+		}
 	}
 }
 
@@ -331,8 +350,9 @@ func skelStmt(st ast.Stmt, out *[]string) {
 func collectSkeletons(w *World) [][2]any {
 	var res [][2]any
 	p := w.pkgs[""]
-	for _, name := range []string{"checkpointWithExecutor", "execCheckpoint", "Sync", "syncLocked", "verifyWithExecutor"} {
+	for _, name := range []string{"checkpointWithExecutor", "execCheckpoint", "Sync", "syncLocked", "verifyWithExecutor", "snapshotReader"} {
 		skelVerifyMode = name == "verifyWithExecutor"
+		skelSnapMode = name == "snapshotReader"
 		fi := p.funcByName(name, "DB")
 		if fi == nil || fi.decl.Body == nil {
 			die("skeleton: func (db *DB) %s not found: the translator no longer understands the source", name)
@@ -344,7 +364,7 @@ func collectSkeletons(w *World) [][2]any {
 		}
 		res = append(res, [2]any{name, out})
 	}
-	skelVerifyMode = false
+	skelVerifyMode, skelSnapMode = false, false
 	return res
 }
 
